@@ -123,4 +123,44 @@ theorem coarsen_den {α β} (f : List α → β) (d : Nat) (hd : 0 < d) : ∀ (b
 
 example : coarsenChunked Chunks.sum 2 [[1, 2, 3, 4], [5, 6]] = [3, 7, 11] := by rfl
 
+/-- **unique_inverse_den**: the masked-sum formula for `return_inverse` picks, for every element of the array, the
+    position of its value in the (strictly sorted) unique values -/
+theorem unique_inverse_den (xs : List Nat) (v : Nat) (hv : v ∈ xs) :
+    (uniq xs).getD (inverseOf (uniq xs) v) 0 = v := by
+  unfold inverseOf
+  have h := inverseOf_aux v (uniq xs) 0 (sorted_uniq xs)
+  simp only [Nat.zero_add] at h
+  have hm : v ∈ uniq xs := (mem_uniq v xs).2 hv
+  rw [h, if_pos hm]
+  have hi := List.idxOf_lt_length_of_mem hm
+  rw [List.getD_eq_getElem?_getD, List.getElem?_eq_getElem hi, List.getElem_idxOf hi]
+  rfl
+
+
+
+example : inverseOf (uniq [3, 1, 3, 2]) 3 = 2 := by rfl
+
+/-- **bincount_weights_den**: with weights chunked like `x`, the zero-padded sum of the per-chunk weighted bincounts
+    is the weighted bincount of the whole (exact weights; float weights are validated) -/
+theorem bincount_weights_den (bs : List (List Nat × List Int)) (m : Nat) (hne : bs ≠ [])
+    (hlen : ∀ b ∈ bs, b.1.length = b.2.length) :
+    bincountAggW (bs.map (fun b => bincountW b.1 b.2 m)) = bincountW (bs.flatMap (·.1)) (bs.flatMap (·.2)) m := by
+  have hl : maxList ((bs.map (fun b => bincountW b.1 b.2 m)).map List.length) = max m (binLen (bs.flatMap (·.1))) := by
+    rw [List.map_map]
+    have : (List.length ∘ fun b : List Nat × List Int => bincountW b.1 b.2 m) = (fun b => max m (binLen b)) ∘ (·.1) := by
+      funext b; simp [bincountW_eq]
+    rw [this, ← List.map_map, maxList_binLens m (bs.map (·.1)) (by simpa using hne)]
+    simp [List.flatMap_def]
+  unfold bincountAggW
+  rw [hl, bincountW_eq]
+  apply List.map_congr_left
+  intro i _
+  rw [List.map_map, ← isum_map_wsum bs hlen i]
+  congr 1
+  apply List.map_congr_left
+  intro b _
+  exact bincountW_getD b.1 b.2 m i
+
+example : bincountAggW [bincountW [1, 1] [2, 3] 0, bincountW [0, 3] [-1, 4] 0] = [-1, 5, 0, 4] := by decide
+
 end Dask.C27
